@@ -336,7 +336,9 @@ func (w *World) AllocBoundSized(n ssa.Value, at ssa.Instruction, inputs []ssa.Va
 		tt := lin.Term(t)
 		if fi.terms[t].kind == tLen && c.introduced[tt] && !seenT[tt] {
 			seenT[tt] = true
-			sum2 = sum2.Add(lin.V(tt).ScaleI(8))
+			// 8 × the bytes that slice already occupies (its element size matters: a
+			// []string sized after a []*T is twice the memory of the pointers, not 16×)
+			sum2 = sum2.Add(lin.V(tt).ScaleI(8 * elemBytes(fi.terms[t].v)))
 		}
 	}
 	if len(seenT) > 0 {
@@ -542,4 +544,33 @@ func onlyLoadedAndCalled(al *ssa.Alloc) bool {
 		}
 	}
 	return true
+}
+
+// elemBytes: size in bytes of one element of the slice / array / string v (1 if unknown).
+func elemBytes(v ssa.Value) int64 {
+	if v == nil {
+		return 1
+	}
+	var el types.Type
+	switch t := v.Type().Underlying().(type) {
+	case *types.Slice:
+		el = t.Elem()
+	case *types.Array:
+		el = t.Elem()
+	case *types.Pointer:
+		if a, ok := t.Elem().Underlying().(*types.Array); ok {
+			el = a.Elem()
+		}
+	}
+	if el == nil {
+		return 1
+	}
+	n := types.SizesFor("gc", "amd64").Sizeof(el)
+	if n < 1 {
+		return 1
+	}
+	if n > 64 {
+		return 64
+	}
+	return n
 }
